@@ -261,7 +261,7 @@ impl Compiler {
         // Track if iterator is exhausted (by rest pattern)
         let mut iterator_exhausted = false;
 
-        for (i, elem) in arr_pat.elements.iter().enumerate() {
+        for elem in arr_pat.elements.iter() {
             if let Some(pattern) = elem {
                 // Check for rest pattern
                 if let Pattern::Rest(rest) = pattern {
@@ -270,11 +270,7 @@ impl Compiler {
                     let rest_arr = self.builder.alloc_register()?;
                     self.builder.emit(Op::CreateRestArray {
                         dst: rest_arr,
-                        start_index: u8::try_from(i).map_err(|_| {
-                            JsError::internal_error(
-                                "Too many elements before a rest element (max 255)",
-                            )
-                        })?,
+                        iterator: iter_reg,
                     });
                     self.compile_pattern_binding(&rest.argument, rest_arr, mutable, is_var)?;
                     self.builder.free_register(rest_arr);
@@ -523,17 +519,13 @@ impl Compiler {
         // Track if iterator is exhausted (by rest pattern)
         let mut iterator_exhausted = false;
 
-        for (i, elem) in arr_pat.elements.iter().enumerate() {
+        for elem in arr_pat.elements.iter() {
             if let Some(pattern) = elem {
                 if let Pattern::Rest(rest) = pattern {
                     let rest_arr = self.builder.alloc_register()?;
                     self.builder.emit(Op::CreateRestArray {
                         dst: rest_arr,
-                        start_index: u8::try_from(i).map_err(|_| {
-                            JsError::internal_error(
-                                "Too many elements before a rest element (max 255)",
-                            )
-                        })?,
+                        iterator: iter_reg,
                     });
                     self.compile_pattern_assignment(&rest.argument, rest_arr)?;
                     self.builder.free_register(rest_arr);
